@@ -330,7 +330,12 @@ def check_fresh_state(rep: Report, prog: Program) -> None:
     # no class-level / module-level counter
     for ci in prog.classes.values():
         for f in COUNTER_ATTRS:
-            if f in ci.class_consts or f in ci.field_ann:
+            # a bare annotation (`unknown_attempts: int`, e.g. next to __slots__) declares, it does not share; a value
+            # does - except the per-instance default of a dataclass field (immutable constant or default_factory)
+            val = ci.class_consts.get(f, ci.field_default.get(f))
+            is_dc = any(ast.unparse(d).split("(")[0].split(".")[-1] == "dataclass" for d in ci.node.decorator_list)
+            per_instance = is_dc and f in ci.field_default and (isinstance(val, ast.Constant) or (isinstance(val, ast.Call) and ast.unparse(val.func).split(".")[-1] == "field" and any(k.arg == "default_factory" or (k.arg == "default" and isinstance(k.value, ast.Constant)) for k in val.keywords)))
+            if val is not None and not per_instance:
                 rep.instance("R1.5", f"class-level|{ci.qual}.{f}")
                 rep.fail("R1.5", f"class-level-counter|{ci.qual}.{f}", f"{ci.qual} declares `{f}` at class level (shared between calls)", where=f"{ci.module.relpath}:{ci.node.lineno}", function=ci.qual)
     init = prog.func("redress.policy.state:_RetryState.__init__")
@@ -370,3 +375,7 @@ def run(rep: Report, prog: Program, tier: str) -> None:
 
     sugar_setattr(rep, "R1.7", prog)
     rep.floor("R1.7", 8)
+
+    from .common import forwarding_slice
+
+    forwarding_slice(rep, "R1.8", prog, ("max_attempts", "max_unknown_attempts", "per_class_max_attempts"), "the caps the caller configured are the caps that are enforced: max_attempts, max_unknown_attempts and per_class_max_attempts reach the retry component unchanged through every layer - decorator, sugar classes, from_config, policy (= the cap obligations of C12 R12.3)")
